@@ -486,5 +486,11 @@ pub open spec fn carries(step: RunStep, from: RunStep) -> bool {
     proof { assert(claimable(*step_) ==> carries(step, *step_)); }
 //@ end
 
+//@ note start_step: the initial machine state denotes the value of the program in the environment; with run_step's contract, every state of the run denotes that value, and a Done state is its own value -- so a run that ends, ends with eval(program, env)
+//@ extract fn start_step from src/compiler/clvm.rs
+//@ sig r
+    ensures final_of(r) == eval(tv(*sexp_), tv(*context_)), claimable(r) == (match *sexp_ { SExp::Cons(_, a, _) => *a is Integer, _ => true })
+//@ end
+
 }
 fn main() {}
